@@ -103,7 +103,6 @@ func vfPool(r *vfRng, b Bundle, maxPool int) (pool []vfPoolFrag) {
 	if err != nil {
 		return nil
 	}
-	p := len(vfPayload(b))
 	seen := map[string]bool{}
 	add := func(f Bundle, lvl string) {
 		k := fmt.Sprintf("%d-%d", f.PrimaryBlock.FragmentOffset, len(vfPayload(f)))
@@ -113,14 +112,27 @@ func vfPool(r *vfRng, b Bundle, maxPool int) (pool []vfPoolFrag) {
 		seen[k+lvl] = true
 		pool = append(pool, vfPoolFrag{f, lvl})
 	}
-	for k := 0; k < 3; k++ {
-		m := n.overhead + 4 + r.intn(p)
-		frags, err := vfCloneBundle(b).Fragment(m)
-		if err != nil || len(frags) < 2 {
-			continue
+	cut := func(b Bundle, ov, size int) []Bundle {
+		// a limit between the first fragment's overhead estimate and the size (retry: the estimate
+		// varies by a byte or two with the widths of the heads)
+		if size-ov < 3 {
+			return nil
 		}
+		for try := 0; try < 8; try++ {
+			m := ov + 2 + r.intn(size-ov-2)
+			if frags, err := vfCloneBundle(b).Fragment(m); err == nil && len(frags) >= 2 {
+				return frags
+			}
+		}
+		return nil
+	}
+	for k := 0; k < 3; k++ {
+		frags := cut(b, n.overhead, n.size)
 		for _, f := range frags {
 			add(f, "1")
+		}
+		if len(frags) == 0 {
+			continue
 		}
 		// second level: cut one or two of the larger fragments again
 		for t := 0; t < 2; t++ {
@@ -133,12 +145,7 @@ func vfPool(r *vfRng, b Bundle, maxPool int) (pool []vfPoolFrag) {
 			if err != nil {
 				continue
 			}
-			m2 := fn.size - 1 - r.intn(fl-1)
-			subs, err := vfCloneBundle(f).Fragment(m2)
-			if err != nil || len(subs) < 2 {
-				continue
-			}
-			for _, s := range subs {
+			for _, s := range cut(f, fn.overhead, fn.size) {
 				add(s, "2")
 			}
 		}
@@ -186,6 +193,20 @@ func vfSubsets(n, maxK int, f func([]int)) {
 	rec(0)
 }
 
+// vfSameInput compares the input part of two observation lines (operation, payload, block types, fragments).
+func vfSameInput(a, b string) bool {
+	fa, fb := strings.Fields(a), strings.Fields(b)
+	if len(fa) < 4 || len(fb) < 4 {
+		return false
+	}
+	for i := 0; i < 4; i++ {
+		if fa[i] != fb[i] {
+			return false
+		}
+	}
+	return true
+}
+
 func TestVerifC10(t *testing.T) {
 	outPath := os.Getenv("VERIF_OUT")
 	if outPath == "" {
@@ -220,7 +241,7 @@ func TestVerifC10(t *testing.T) {
 	r := &vfRng{s: seed*2654435761 + 10}
 	count := map[string]int{}
 	emit := func(part, s string) {
-		if only != "" && s != only {
+		if only != "" && !vfSameInput(s, only) {
 			return
 		}
 		fmt.Fprintln(w, s)
@@ -238,7 +259,7 @@ func TestVerifC10(t *testing.T) {
 		if pi >= len(specs) {
 			s = vfRandomSpec(r, 7000+pi)
 		}
-		p := 8 + r.intn(30)
+		p := 30 + r.intn(40)
 		b, err := s.build(r.bytes(p))
 		if err != nil {
 			fmt.Fprintln(w, "# build error "+err.Error())
@@ -249,6 +270,7 @@ func TestVerifC10(t *testing.T) {
 			maxPool = 16
 		}
 		pool := vfPool(r, b, maxPool)
+		fmt.Fprintf(w, "# pool %d: spec=%s payload=%d elements=%d\n", pi, s.name, p, len(pool))
 		if len(pool) < 3 {
 			continue
 		}
